@@ -207,7 +207,7 @@ def run(ctx, res):
                 res.violation(rid4, "glr/make-error", "the GLR error position comes from %s" % fmt(ctxa)[:120], m.loc())
     # closures of make_error: expected kinds of the heads' states, unfiltered
     names = set()
-    for h2 in F.all_nested_closures(m):
+    for h2 in [m] + F.all_nested_closures(m):       # iterator closures or plain loops in the function itself
         for b, t in h2.calls():
             names.add(callee(t))
     if any(n.endswith("ParserDefinition::expected_token_kinds") for n in names) and not any(
